@@ -480,6 +480,17 @@ pub fn real_against_model(sc: &Scenario, ex: &Expect, level: u8, r: &crate::real
     None
 }
 
+impl C01 {
+    pub fn real_case(&self, sc: &Scenario) -> Option<Violation> {
+        let ex = expect_of(sc);
+        let r = real_run(sc, 0, "c01real");
+        real_against_model(sc, &ex, 0, &r).map(|mut v| {
+            v.world = "real";
+            v
+        })
+    }
+}
+
 impl Property for C01 {
     fn id(&self) -> &'static str {
         "C01"
@@ -543,6 +554,9 @@ impl Property for C01 {
             sc.budget = sc.budget.min(200);
         }
         sc.set_knob("app", if rng.chance(25) { 1 } else { 0 });
+        if rng.chance(20) {
+            sc.set_knob("layout", 1);
+        }
         sc
     }
     fn run(&self, sc: &Scenario) -> RunOut {
@@ -565,12 +579,10 @@ impl Property for C01 {
             if !matches!(ex.halt, Halt::Ended(End::End) | Halt::Ended(End::Exit(_)) | Halt::Ended(End::Encoding(_))) {
                 return (0, None);
             }
-            let r = real_run(&sc, 0, "c01real");
-            if let Some(mut v) = real_against_model(&sc, &ex, 0, &r) {
-                v.world = "real";
-                return (1, Some((sc, v)));
+            match self.real_case(&sc) {
+                Some(v) => (1, Some((sc, v))),
+                None => (1, None),
             }
-            (1, None)
         });
         if bad.is_some() {
             return bad;
@@ -578,6 +590,9 @@ impl Property for C01 {
         stats.extra.push(("realworld_spawns".into(), J::Int(spawned as i64)));
         stats.extra.push(("realworld_note".into(), J::str("release binary `hyeong run -O0 --color never FILE` (main.rs, clap, real stdin path, real termcolor/std buffering) on terminating scenarios; stdin through a real pipe in planned write sizes; kernel interleaving not controlled")));
         None
+    }
+    fn replay_real(&self, sc: &Scenario) -> Option<Violation> {
+        self.real_case(sc)
     }
     fn components(&self) -> J {
         J::obj()
